@@ -59,78 +59,101 @@ def distinct_letters(opts):
     return len(ls) == len(set(ls))
 
 
-def selftest(ctx, recs):
-    """Corrupt one recorded field per failure class; the oracle must flag exactly those records."""
-    clean = [r for r in recs if not r["panic"]]
+def ten(x):
+    return tuple(x[k] for k in ("host", "port", "timeout", "kind", "grid", "qos", "weight", "wtype", "auth", "setid"))
+
+
+def selftest(ctx, recs, cases, main_flagged):
+    """Corrupt one recorded field per failure class in records the oracle accepted; the oracle must then flag
+    exactly those records (plus whatever it flagged in them before), each in the class of its corruption."""
+    clean = [r for r in recs if not r["panic"] and r["id"] not in main_flagged]
     opt = [r for r in clean if r["cls"] == "opt" and distinct_letters(r["opts"])]
     by_case = {}
     for r in opt:
         by_case.setdefault(r["case"], []).append(r)
-
-    def first(pred, pool=opt):
-        for r in pool:
-            if pred(r) and r["id"] not in used:
-                used.add(r["id"])
-                return copy.deepcopy(r)
-        raise Inconclusive("self-test: no candidate record (%s)" % pred.__doc__)
-
     used = set()
-    out, expect = [], {}
+    out, expect, res = [], {}, {}
+
+    def corrupt(cat, field, pred, change, pool=None):
+        for r in (opt if pool is None else pool):
+            if r["id"] not in used and pred(r):
+                used.add(r["id"])
+                r = copy.deepcopy(r)
+                change(r)
+                out.append(r)
+                expect[r["id"]] = (cat, field)
+                return
+        res["%s%s" % (cat, ":" + field if field else "")] = "no accepted record to corrupt"
 
     def has(letter):
-        def p(r):
-            return any(t["o"] == letter for t in r["opts"]) and len(r["opts"]) >= 2
-        p.__doc__ = "has -" + letter
-        return p
+        return lambda r: any(t["o"] == letter for t in r["opts"]) and len(r["opts"]) >= 2
 
-    r = first(has("p")); r["p"]["port"] += 1; out.append(r); expect[r["id"]] = ("parse", "port")
-    r = first(has("g")); r["p"]["grid"], r["p"]["qos"] = r["p"]["qos"] + 1, r["p"]["grid"]; out.append(r); expect[r["id"]] = ("parse", "grid")
-    r = first(lambda r: r["sid"] != "" and len(r["opts"]) >= 1); r["b"]["setid"] = ""; out.append(r); expect[r["id"]] = ("round", "setid")
-    r = first(has("e")); r["rb"]["auth"] += 1; out.append(r); expect[r["id"]] = ("reground", "auth")
-    r = first(has("h")); r["r"]["key"] += "x"; out.append(r); expect[r["id"]] = ("key_reg", None)
-    r = first(has("t")); r["b"]["key"] = r["b"]["key"].replace(" -t ", " -T "); out.append(r); expect[r["id"]] = ("key_conv", None)
+    def set_(path, f):
+        def ch(r):
+            r[path[0]][path[1]] = f(r[path[0]][path[1]])
+        return ch
+
+    corrupt("parse", "port", has("p"), set_(("p", "port"), lambda v: v + 1))
+
+    def swap(r):
+        r["p"]["grid"], r["p"]["qos"] = r["p"]["qos"] + 1, r["p"]["grid"]
+    corrupt("parse", "grid", has("g"), swap)
+    corrupt("round", "setid", lambda r: r["sid"] != "" and len(r["opts"]) >= 1, set_(("b", "setid"), lambda v: ""))
+    corrupt("reground", "auth", has("e"), set_(("rb", "auth"), lambda v: v + 1))
+    corrupt("key_reg", None, has("h"), set_(("r", "key"), lambda v: v + "x"))
+    corrupt("key_conv", None, has("t"), set_(("b", "key"), lambda v: v.replace(" -t ", " -T ")))
 
     def wnorm(r):
-        """weight type set and weight normalised to 100"""
         o = {t["o"]: t["n"] for t in r["opts"]}
         return o.get("v", 0) != 0 and o.get("w", -1) > 100 and r["p"]["weight"] == 100
-    r = first(wnorm); r["p"]["weight"] = [t["n"] for t in r["opts"] if t["o"] == "w"][0]; r["b"]["weight"] = r["p"]["weight"]
-    out.append(r); expect[r["id"]] = ("parse", "weight")
+
+    def unnorm(r):
+        r["p"]["weight"] = [t["n"] for t in r["opts"] if t["o"] == "w"][0]
+        r["b"]["weight"] = r["p"]["weight"]
+    corrupt("parse", "weight", wnorm, unnorm)
     # one endpoint, two texts, two keys (each record consistent in itself): only the group check can see it
     pair = None
     for c, rs in by_case.items():
         if len(rs) == 2 and not (used & {x["id"] for x in rs}):
             pair = copy.deepcopy(rs)
             break
+    grp = None
     if pair is None:
-        raise Inconclusive("self-test: no case with two renderings")
-    for k in ("p", "b", "r", "rb"):
-        pair[1][k]["key"] = pair[1][k]["key"].upper()
-    used |= {pair[0]["id"], pair[1]["id"]}
-    out += pair
-    expect[pair[0]["id"]] = ("key_group", None)
-    expect[pair[1]["id"]] = ("key_group", None)
+        res["key_group"] = "no accepted case with two renderings"
+    else:
+        for k in ("p", "b", "r", "rb"):
+            pair[1][k]["key"] = pair[1][k]["key"].upper()
+        used |= {pair[0]["id"], pair[1]["id"]}
+        out += pair
+        grp = ten(cases[pair[0]["case"] - 1]["exp"])
     conv = [r for r in clean if r["cls"] == "conv"]
-    r = first(lambda r: True, conv); r["b"]["timeout"] += 1; out.append(r); expect[r["id"]] = ("conv_round", "timeout")
+    corrupt("conv_round", "timeout", lambda r: True, set_(("b", "timeout"), lambda v: v + 1), conv)
     txt = [r for r in clean if r["cls"] in ("short", "rnd") and len(r["t"]) >= 3]
-    r = first(lambda r: True, txt); r["panic"] = True; r["where"] = "Parse"; out.append(r); expect[r["id"]] = ("panics", None)
+
+    def crash(r):
+        r["panic"], r["where"] = True, "Parse"
+    corrupt("panics", None, lambda r: True, crash, txt)
     # untouched controls
     controls = [copy.deepcopy(x) for x in opt if x["id"] not in used][:25] + [copy.deepcopy(x) for x in txt if x["id"] not in used][:5]
     out += controls
+    if grp is not None:
+        for x in out:   # every record of the corrupted pair's endpoint is in the conflicting group
+            if x["cls"] == "opt" and distinct_letters(x["opts"]) and ten(cases[x["case"] - 1]["exp"]) == grp and x["id"] not in expect:
+                expect[x["id"]] = ("key_group", None)
+    if not expect:
+        return res, False
     v, _ = oracle(ctx, [json.dumps(x) + "\n" for x in out], "selftest", timeout=300)
-    res = {}
     ok = True
     for rid, (cat, field) in expect.items():
-        hit = any((x[0] if isinstance(x, list) else x) == rid and (field is None or not isinstance(x, list) or len(x) < 2
-                                                                   or x[1] == field or cat == "panics") for x in v[cat])
+        hit = any((x[0] if isinstance(x, list) else x) == rid and (field is None or cat == "panics" or x[1] == field) for x in v[cat])
         res["%s%s@%d" % (cat, ":" + field if field else "", rid)] = "rejected" if hit else "ACCEPTED"
         ok = ok and hit
     extra = flagged_ids(v) - set(expect)
-    res["controls_flagged"] = sorted(extra)
-    res["controls"] = len(controls)
+    res["untouched_records"] = len(out) - len(expect)
+    res["untouched_records_flagged"] = sorted(extra)
     if not ok or extra:
         raise Inconclusive("binding self-test failed: %s" % json.dumps(res))
-    return res
+    return res, all("no accepted" not in str(x) for x in res.values())
 
 
 def slug(s):
@@ -181,10 +204,10 @@ def run(ctx):
         cases_path = os.path.join(work, "cases.ndjson")
         with open(cases_path, "w") as f:
             if replay.get("case"):
-                f.write(json.dumps(replay["case"]) + "\n")
+                f.write(json.dumps(dict(replay["case"], text=replay.get("text") or "")) + "\n")
         tp = os.path.join(work, "texts.ndjson")
         with open(tp, "w") as f:
-            if replay.get("t") is not None:
+            if replay.get("t") is not None and not replay.get("case"):
                 f.write(json.dumps({"t": replay["t"]}) + "\n")
         args += ["-cases", cases_path, "-texts", tp, "-short", "-1", "-rnd", "0", "-mal", "0"]
     else:
@@ -199,8 +222,8 @@ def run(ctx):
     # ---- 4. TLC judges every record (sharded: records describing one endpoint stay together)
     nsh = 1 if replay is not None else ctx.pick(3, 8)
     shards = [[] for _ in range(nsh)]
-    keep = []          # parsed records kept for the self-test and for samples (bounded)
-    by_id_line = {}
+    keep = []          # records kept for the self-test and for samples (bounded per class)
+    kept = {}
     n = 0
     with open(recs_path) as f:
         for line in f:
@@ -208,15 +231,15 @@ def run(ctx):
             m = re.search(r'"grp":(\d+)', line[:200])
             g = int(m.group(1)) if m and '"cls":"opt"' in line[:20] else n
             shards[g % nsh].append(line)
-            if len(keep) < 60000:
+            mc_ = re.match(r'\{"cls":"(\w+)"', line)
+            kcls = mc_.group(1) if mc_ else "?"
+            if kept.get(kcls, 0) < {"opt": 30000, "conv": 300, "mal": 600}.get(kcls, 2000):
+                kept[kcls] = kept.get(kcls, 0) + 1
                 keep.append(line)
     if n == 0:
         raise Inconclusive("no records")
     futs = [pool.submit(oracle, ctx, sh_lines, "oracle-%d" % i, ctx.pick(300, 850)) for i, sh_lines in enumerate(shards) if sh_lines]
-    st_f = None
     recs_head = [json.loads(l) for l in keep]
-    if replay is None:
-        st_f = pool.submit(selftest, ctx, recs_head)
     verdicts = [f.result()[0] for f in futs]
     total = {}
     for v in verdicts:
@@ -232,8 +255,14 @@ def run(ctx):
     ctx.log("oracle", {k: (len(x) if isinstance(x, list) else x) for k, x in total.items()}, per_shard)
 
     mc = tlc.require_clean(mc_f.result(), "MC_Endpoint/" + mc_cfg)
-    selftest_res = st_f.result() if st_f else {"skipped": "replay mode"}
     pool.shutdown()
+    # ---- 4b. the binding is demonstrated: corrupted observations must be rejected, record by record
+    if replay is None:
+        selftest_res, complete = selftest(ctx, recs_head, cases, flagged_ids(total))
+        if not complete and not flagged_ids(total):
+            raise Inconclusive("binding self-test incomplete on a clean run: %s" % json.dumps(selftest_res))
+    else:
+        selftest_res = {"skipped": "replay mode"}
 
     # ---- 5. vacuity guards
     if replay is None:
@@ -265,7 +294,7 @@ def run(ctx):
             d["case"] = cases[r["case"] - 1]
         return d
 
-    for rid, cls, icls in sorted(total["panics"]):
+    for rid, cls, icls in sorted(total["panics"], key=lambda x: (len(rec_by_id.get(x[0], {}).get("t", [])), x[0])):
         r = rec_by_id.get(rid, {})
         sig = "C18:panic:" + icls
         if icls != "short-or-blank-string":
